@@ -6,22 +6,20 @@ for _f, _q in [("processor/context/snapshot_action.py", "SnapshotActionContext._
                ("processor/context/log_action.py", "LogActionContext._process_action"),
                ("processor/context/metric_action.py", "MetricActionContext._process_action"),
                ("processor/context/span_action.py", "SpanActionContext._process_action")]:
-    c = contract(_f, _q, [])
+    c = contract(_f, _q, [], coarse=True)
     c.param("self", OBJ(_q.split(".")[0]))
     c.result = ANY
     c.modifies = lambda S_: [("all",)]
     c.sig("BaseException", "any-failure")
-    c.coarse = True
 
 # results of actions: processed when the trigger context closes (refined by C09/C16/C20 specs)
 for _f, _q in [("processor/context/log_action.py", "LogActionResult.process"),
                ("processor/context/snapshot_action.py", "SendSnapshotActionResult.process"),
                ("processor/context/snapshot_action.py", "DeferredSnapshotActionResult.process"),
                ("processor/context/span_action.py", "SpanResult.process")]:
-    c = contract(_f, _q, [])
+    c = contract(_f, _q, [], coarse=True)
     c.param("self", OBJ(_q.split(".")[0], inv=False)).param("ctx", VAL)
     c.result = VAL
     c.logged = "ActionResult.process"
     c.modifies = lambda S_: [("all",)]
     c.sig("BaseException", "any-failure")
-    c.coarse = True
